@@ -454,13 +454,17 @@ def run_chunk(chunk_id, payload):
         if viol is not None:
             part["violations"].append(viol)
         if len(part["samples"]) < 1 and judged > 6 and \
-                acc.get("conversions_judged"):
+                acc.get("frequencies_judged", 0) >= 3:
             part["samples"].append(dict(
                 from_type=TN[ft], to_type=TN[tt] if 0 <= tt < 11 else tt,
                 rows=rows, cols=cols, z0=ZKINDS[zk], frequencies=F,
                 operations=[DM.op_text(op) for op, _, _ in case.steps[:40]
                             if op[0] in ("vnadata_convert", "vnadata_resize",
                                          "vnadata_init")][:14],
+                source_matrix_f0=[str(v) for v in M["a"].data[0]]
+                if M["a"].F else [],
+                source_z0_f0=[str(v) for v in M["a"].zvec(0)]
+                if M["a"].F else [],
                 max_margin=acc.get("max_margin"),
                 final_state={o: M[o].brief() for o in M}))
     part["evaluations"] = stats.get("ok:vnadata_convert", 0) + \
